@@ -83,6 +83,20 @@ def gen_cases(rng, tier):
                 toks = ['p0,30', 't10', 'p0,31', 't%d' % g1, 'r0,31', 't%d' % g2, 'p0,31', 't%d' % g3, 'r0,31', 't%d' % (HA + 50), 'r0,30', 't%d' % (HA + 60)]
                 cases.append({'id': 'c05-dbl-%d' % dj, 'cfg': cfg, 'hist': toks, 'sub': 'lsim', 'tags': {'shape': 'double-tap-while-pending', 'conc': conc}})
                 dj += 1
+    # things that happen on the virtual-key row while a decision is pending are not the tap-hold key's own events, even when the
+    # virtual key has the index that equals the code of the physical key (esc = 1, `1` = 2, tab = 15)
+    vj = 0
+    for kname, code in (('esc', 1), ('1', 2), ('tab', 15)):
+        for variant in ('tap-hold', 'tap-hold-release-keys', 'tap-hold-press'):
+            for D in (30, 100):
+                vks = ' '.join('v%d %s' % (q, 'lctl' if q == code else 'XX') for q in range(code + 1))
+                extra = ' (d)' if variant.endswith('-keys') else ''
+                cfg = ('(defsrc %s a s)\n(defvirtualkeys %s)\n(deflayer base (%s 0 200 x lsft%s) (hold-for-duration %d v%d) (on-press tap-vkey v%d))'
+                       % (kname, vks, variant, extra, D, code, code))
+                how = rng.choice([30, 31])
+                h = ['t3', 'd%d' % how, 't10', 'u%d' % how, 't%d' % rng.choice([5, 40]), 'd%d' % code, 't300', 'u%d' % code, 't60']
+                cases.append({'id': 'c05-vrow-%d' % vj, 'cfg': cfg, 'hist': h, 'sub': 'ksim', 'tags': {'shape': 'virtual-key-with-the-same-index', 'key': kname}})
+                vj += 1
     # random configs of the profile incl. two tap-hold keys interleaved
     cases += lsim_cases(rng, 'c05', 100 if tier == 'quick' else 3000, 3, tag='c05-rand')
     return cases
